@@ -1,12 +1,65 @@
 #!/usr/bin/env python3
 """Self-test of tools/translate_index.py against behaviour-preserving rewrites applied mechanically to EVERY header of a
-scratch copy of the repository: the generated definitions (doc comments aside) must not change and no anchor may fail.
+scratch copy of the repository: the generated definitions (doc comments aside) must not change and no anchor may fail; the site inventory of
+tools/translate_sites.py must raise no alarm on them (no sweep-only row beyond Props/C01Sites.accepted), nor on any of the
+committed behaviour-preserving refactorings under /verif/harmless.
 
     python3 tools/test_translate_robust.py            # uses TAPKEE_REPO or /repo, prints one line per rewrite"""
 import os, re, shutil, subprocess, sys, tempfile
 sys.path.insert(0, os.path.dirname(os.path.abspath(__file__)))
 sys.path.insert(0, os.path.dirname(os.path.dirname(os.path.abspath(__file__))))
 import translate_index as T
+import translate_sites as S
+
+ROOT = os.path.dirname(os.path.dirname(os.path.abspath(__file__)))
+
+
+def accepted_sites():
+    """the pinned sweep-only rows of lean/TapkeeVerif/Props/C01Sites.lean"""
+    src = open(os.path.join(ROOT, "lean", "TapkeeVerif", "Props", "C01Sites.lean")).read()
+    i = src.index("def accepted : List Key := [")
+    j = src.index("\n]", i)
+    row = re.compile(r'^\s*\("((?:[^"\\]|\\.)*)", "((?:[^"\\]|\\.)*)", "((?:[^"\\]|\\.)*)", (\d+)\),?', re.M)
+    un = lambda t: t.replace('\\"', '"').replace("\\\\", "\\")
+    return {(un(m.group(1)), un(m.group(2)), un(m.group(3))): int(m.group(4)) for m in row.finditer(src[i:j])}
+
+
+def sites_verdict(repo, label, acc):
+    """the site inventory of a rewritten tree must raise no alarm: no sweep-only row beyond the accepted ones"""
+    try:
+        _, _, sites, mg = S.render(repo)
+    except T.TranslateError as ex:
+        print("RAISES   sites: %-33s %s" % (label, str(ex)[:200]))
+        return 1
+    cur = S.sweep_only_keys(mg)
+    bad = [(k, cur[k], acc.get(k, 0)) for k in sorted(cur) if cur[k] > acc.get(k, 0)]
+    if bad:
+        print("ALARM    sites: %-33s %d unaccepted sweep-only row(s): %s" % (label, len(bad), bad[:3]))
+        return 1
+    sm = S.summary(sites)
+    print("same     sites: %-33s (%d sites: %d theorem, %d loopvar, %d sweep-only)" % (label, sm["sites"], sm["theorem"], sm["loopvar"], sm["sweep_only"]))
+    return 0
+
+
+def harmless_patches(repo, acc):
+    """every committed behaviour-preserving refactoring under /verif/harmless that touches include/tapkee"""
+    bad = 0
+    H = os.path.join(ROOT, "harmless")
+    for hid in sorted(os.listdir(H)) if os.path.isdir(H) else []:
+        patch = os.path.join(H, hid, "patch.diff")
+        if not os.path.exists(patch) or "include/tapkee" not in open(patch).read():
+            continue
+        scratch = tempfile.mkdtemp(prefix="c01-robust-", dir="/var/tmp")
+        try:
+            shutil.copytree(os.path.join(repo, "include"), os.path.join(scratch, "include"))
+            r = subprocess.run(["patch", "-p1", "--fuzz=3", "-s", "-i", patch], cwd=scratch, capture_output=True, text=True)
+            if r.returncode:
+                print("same     sites: %-33s (patch does not apply to this tree: skipped)" % ("harmless/" + hid))
+                continue
+            bad += sites_verdict(scratch, "harmless/" + hid, acc)
+        finally:
+            shutil.rmtree(scratch, ignore_errors=True)
+    return bad
 
 
 def defs(text):
@@ -43,7 +96,8 @@ REWRITES = {
 def main():
     repo = os.environ.get("TAPKEE_REPO", "/repo")
     ref = defs(T.render(repo))
-    bad = 0
+    acc = accepted_sites()
+    bad = sites_verdict(repo, "unchanged tree", acc)
     for name, fn in REWRITES.items():
         scratch = tempfile.mkdtemp(prefix="c01-robust-", dir="/var/tmp")
         try:
@@ -69,8 +123,10 @@ def main():
             except T.TranslateError as ex:
                 bad += 1
                 print("RAISES   %-40s (%d files touched): %s" % (name, changed, str(ex)[:200]))
+            bad += sites_verdict(scratch, name, acc)
         finally:
             shutil.rmtree(scratch, ignore_errors=True)
+    bad += harmless_patches(repo, acc)
     return 1 if bad else 0
 
 
